@@ -218,10 +218,31 @@ def outHandler : Handler := fun payload impl =>
           let toks := p.1.map (fun r => match r with | .ok => "ok" | .err e => errTok e)
           (" ".intercalate (toks ++ List.replicate (q.length - p.1.length) "_" ++ [s!"@{p.2.position}"])) :: go qs p.2
       let model := " ; ".intercalate (go prog {})
-      -- the specification: the sink holds exactly the bytes of the successful operations, in program order
-      let want := hexOfBytes (specSink typ prog)
-      let got := (splitOps impl).getLast?.getD ""
-      (model, if got = "sink=" ++ want then "ok" else s!"FAIL sink differs from the bytes of the successful operations in program order: want {want}")
+      -- the specification: goal by goal the bytes each successful goal must have sent; an error ends the
+      -- conjunction; position = number of bytes sent so far; at the end the sink holds exactly those bytes
+      let rec judge : List (List OutOp) → List String → Nat → Nat → String
+        | [], [last], _, _ =>
+          let want := hexOfBytes (specSink typ prog)
+          if last = "sink=" ++ want then "ok"
+          else s!"FAIL sink differs from the bytes of the successful goals in program order: want {want}"
+        | q :: qs, o :: os, i, pos =>
+          let rec goals : List OutOp → List String → Nat → Nat → Except String Nat
+            | [], [st], _, pos => if st = s!"@{pos}" then .ok pos else .error s!"query {i}: position {st} but {pos} bytes were sent"
+            | g :: gs, w :: ws, j, pos =>
+              match opBytes typ g with
+              | .ok p => if w = "ok" then goals gs ws (j + 1) (pos + p.length) else .error s!"query {i} goal {j} must succeed, got {w}"
+              | .error e =>
+                if w = errTok e ∧ ws.length = gs.length + 1 ∧ (ws.take gs.length).all (· = "_") then
+                  (match ws.getLast? with
+                   | some st => if st = s!"@{pos}" then .ok pos else .error s!"query {i}: position {st} but {pos} bytes were sent"
+                   | none => .error "no state")
+                else .error s!"query {i} goal {j} must raise {errTok e} and end the conjunction, got {w}"
+            | _, _, _, _ => .error s!"query {i}: number of results differs from number of goals"
+          match goals q (words o) 0 pos with
+          | .ok pos' => judge qs os (i + 1) pos'
+          | .error e => "FAIL " ++ e
+        | _, _, _, _ => "FAIL number of query outputs differs from number of queries"
+      (model, judge prog (splitOps impl) 0 0)
   | _ => ("BAD-CASE", "FAIL unparsable case")
 
 end PrologVerif.Driver.C19
